@@ -25,8 +25,10 @@ pub struct Case {
     pub timing: u8,
     /// for timing 0/3/4: (estimate of the sender clock when the object arrives) - Expires, seconds
     pub obj_est_minus_expires: i64,
-    /// FDT sent as 3 packets one second apart, each with its own SCT
+    /// FDT sent as 3 packets `spread` seconds apart (default 1), each with its own SCT
     pub multi: bool,
+    #[serde(default)]
+    pub spread: i64,
 }
 
 const S0: u64 = EPOCH_2027 + 86_400; // sender time when the (last packet of the) FDT is sent
@@ -129,7 +131,8 @@ pub fn run_case(c: &Case) -> Outcome {
     let mut fdt: Vec<(i64, Vec<u8>)> = Vec::new();
     if c.multi {
         let e = xml.len().div_ceil(3);
-        let times = [S0 as i64 - 2, S0 as i64 - 1, S0 as i64];
+        let sp = c.spread.max(1);
+        let times = [S0 as i64 - 2 * sp, S0 as i64 - sp, S0 as i64];
         let parts = 3;
         for j in 0..parts {
             let sct = if c.sct_present { Some((unix_to_ntp_secs(times[j] as u64) as u32, 0u32)) } else { None };
@@ -299,18 +302,22 @@ fn offsets() -> Vec<i64> {
 pub fn run(thorough: bool) -> i32 {
     let mut rep = Report::new("C19", "model_checking", if thorough { "thorough" } else { "quick" });
     let mut cases = Vec::new();
-    let gaps = [-3600i64, -3, 3, 3600];
-    for d in gaps {
+    let gaps: Vec<i64> = if thorough { vec![-86_400, -3600, -60, -3, 3, 60, 3600, 86_400] } else { vec![-3600, -3, 3, 3600] };
+    let mut offs = offsets();
+    if thorough {
+        offs.extend([60, -60, 86_400, -86_400, 5 * 365 * 86_400, -5 * 365 * 86_400, 9 * 365 * 86_400 + 40 * 86_400]);
+    }
+    for &d in &gaps {
         for sct_present in [true, false] {
-            for offset in offsets() {
+            for &offset in &offs {
                 for check in [true, false] {
                     for timing in 0..6u8 {
-                        for g in gaps {
+                        for &g in &gaps {
                             if matches!(timing, 1 | 2) && g != gaps[0] {
                                 continue;
                             }
-                            for multi in [false, true] {
-                                cases.push(Case { sct_minus_expires: d, sct_present, offset, check, timing, obj_est_minus_expires: g, multi });
+                            for (multi, spread) in [(false, 0i64), (true, 1), (true, 40)] {
+                                cases.push(Case { sct_minus_expires: d, sct_present, offset, check, timing, obj_est_minus_expires: g, multi, spread });
                             }
                         }
                     }
@@ -347,7 +354,7 @@ pub fn run(thorough: bool) -> i32 {
     rep.cov("traces_validated_against_impl", cases.len() as u64);
     rep.cov("evaluations", cases.len() as u64);
     rep.cov("distinct_nontrivial", cases.len() as u64);
-    rep.cov("explanation", "full product SCT-Expires {-1h,-3s,+3s,+1h} x SCT present/absent x receiver clock offset {0, +-3 s, +-1 h, +-400 d, +-20 y} x expiry check on/off x 6 arrival orders (incl. two FDT instances, the object announced only by the older one) x object estimate-Expires {-1h,-3s,+3s,+1h} x 1- or 3-packet FDT; harness-crafted FDT and object packets pushed into the real MultiReceiver with the receiver clock as `now`; verdict compared with the two-clock model; plus real Sender sessions (SCT on/off) under every offset");
+    rep.cov("explanation", "full product SCT-Expires {-1h,-3s,+3s,+1h} x SCT present/absent x receiver clock offset {0, +-3 s, +-1 h, +-400 d, +-20 y} x expiry check on/off x 6 arrival orders (incl. two FDT instances, the object announced only by the older one) x object estimate-Expires {-1h,-3s,+3s,+1h} x FDT in 1 packet / 3 packets 1 s apart / 3 packets 40 s apart (each with its own SCT); harness-crafted FDT and object packets pushed into the real MultiReceiver with the receiver clock as `now`; verdict compared with the two-clock model; plus real Sender sessions (SCT on/off) under every offset");
     rep.cov("exhaustive", true);
     rep.guard("expected_delivered_with_sct", yes[1]);
     rep.guard("expected_not_delivered_with_sct", no[1]);
@@ -356,6 +363,5 @@ pub fn run(thorough: bool) -> i32 {
     rep.guard("instance_valid_at_completion_but_expired_for_a_later_object", late_expiry);
     rep.sample(serde_json::to_value(&cases[cases.len() / 3]).unwrap());
     rep.assume("no transit delay; +-2 s around the expiry instant excluded (all gaps are >= 3 s); the estimate of the sender clock is SCT of the instance's last packet + time elapsed on the receiver clock since its arrival, or the receiver clock when EXT_TIME is absent");
-    let _ = thorough;
     rep.finish()
 }
